@@ -52,6 +52,21 @@ type result struct {
 	StdCallable []string `json:"std_callable_locking_methods"`
 	// reviewed assumptions of the configuration that were actually used
 	InfeasibleUsed []infeasible `json:"infeasible_calls_used"`
+	// field -> mutex of its struct that guards it (configured or inferred)
+	GuardedBy []guardedByOut `json:"guarded_by"`
+	// mutable fields of mutex-bearing structs never seen accessed under the mutex (not checked; informational)
+	NeverUnderLock []string `json:"mutable_fields_never_accessed_under_the_mutex"`
+	// every lock class that is a sync.Mutex / RWMutex struct field, and those for which no guarded field was inferred
+	MutexFieldClasses    []string `json:"mutex_field_classes"`
+	MutexGuardingNothing []string `json:"mutex_classes_without_guarded_fields"`
+}
+
+type guardedByOut struct {
+	Field string `json:"field"`
+	Mutex string `json:"mutex"`
+	How   string `json:"how"`
+	// one place where the field is written after construction (why it is not immutable)
+	WrittenAt string `json:"written_at,omitempty"`
 }
 
 type exemptFldOut struct {
@@ -93,7 +108,8 @@ func (a *analyzer) chainStrings(c *chainNode, last string) []string {
 func (a *analyzer) result() *result {
 	r := &result{Stats: map[string]int{}, Edges: []edgeOut{}, Unresolved: []string{}, Unguarded: []accessOut{}, Exempted: []accessOut{},
 		Fields: []string{}, LockLeaks: []string{}, KnownLockLeaks: []string{}, StdCallable: []string{}, InfeasibleUsed: []infeasible{},
-		ExemptFlds: []exemptFldOut{}, ExemptFns: []exemptFnOut{}}
+		ExemptFlds: []exemptFldOut{}, ExemptFns: []exemptFnOut{}, GuardedBy: []guardedByOut{}, NeverUnderLock: []string{},
+		MutexFieldClasses: []string{}, MutexGuardingNothing: []string{}}
 	// stable numbering: classes sorted by name
 	names := append([]string(nil), a.classNames...)
 	sort.Strings(names)
@@ -134,11 +150,9 @@ func (a *analyzer) result() *result {
 	}
 	sort.Strings(r.Unresolved)
 
-	// guarded-field facts
-	fieldSeen := map[string]bool{}
-	for k := range a.guardedOK {
-		fieldSeen[strings.SplitN(k, "|", 2)[0]] = true
-	}
+	// guarded-field facts: a field of a mutex-bearing struct is guarded when the
+	// configuration says so or when it is (a) accessed at least once with a mutex
+	// of its struct held and (b) written outside constructors
 	keys := make([]string, 0, len(a.accesses))
 	for k := range a.accesses {
 		keys = append(keys, k)
@@ -146,23 +160,61 @@ func (a *analyzer) result() *result {
 	sort.Strings(keys)
 	for _, k := range keys {
 		rec := a.accesses[k]
-		fieldSeen[rec.field] = true
+		fi := a.fieldInfo[rec.field]
+		if fi == nil || !fi.guardedInferred() {
+			continue
+		}
 		o := accessOut{Field: rec.field, Func: shortName(rec.fn.String()), Kind: rec.kind, Pos: a.pf.str(rec.pos)}
 		for _, h := range rec.held {
 			o.Holding = append(o.Holding, a.classNames[h.class])
 		}
 		o.Chain = a.chainStrings(rec.chain, "")
-		if why := a.fieldExemption(rec.field, rec.kind); why != "" {
+		if why := a.fieldExemption(rec.field, rec.kind, shortName(rec.fn.String())); why != "" {
 			o.Exempt = why
 			r.Exempted = append(r.Exempted, o)
 		} else {
 			r.Unguarded = append(r.Unguarded, o)
 		}
 	}
-	for f := range fieldSeen {
-		r.Fields = append(r.Fields, f)
+	structMutexes := map[string][]string{}
+	for _, si := range a.structs {
+		if si != nil {
+			structMutexes[si.name] = si.mutexes
+		}
+	}
+	covered := map[string]bool{}
+	for f, fi := range a.fieldInfo {
+		if fi.guardedInferred() {
+			r.Fields = append(r.Fields, f)
+			g := fi.guard
+			if g == "" && len(structMutexes[fi.owner]) > 0 {
+				g = structMutexes[fi.owner][0]
+			}
+			how := "inferred"
+			if fi.forced {
+				how = "configured"
+			}
+			r.GuardedBy = append(r.GuardedBy, guardedByOut{Field: f, Mutex: g, How: how, WrittenAt: fi.writtenAt})
+			covered[g] = true
+		} else if fi.written && !fi.heldSeen {
+			r.NeverUnderLock = append(r.NeverUnderLock, f)
+		}
 	}
 	sort.Strings(r.Fields)
+	sort.Strings(r.NeverUnderLock)
+	sort.Slice(r.GuardedBy, func(i, j int) bool { return r.GuardedBy[i].Field < r.GuardedBy[j].Field })
+	for _, mus := range structMutexes {
+		for _, m := range mus {
+			if _, isClass := a.classIDs[m]; isClass {
+				r.MutexFieldClasses = append(r.MutexFieldClasses, m)
+				if !covered[m] {
+					r.MutexGuardingNothing = append(r.MutexGuardingNothing, m)
+				}
+			}
+		}
+	}
+	sort.Strings(r.MutexFieldClasses)
+	sort.Strings(r.MutexGuardingNothing)
 	for sname, sp := range a.cfg.Guarded {
 		for f, ex := range sp.ExemptFields {
 			r.ExemptFlds = append(r.ExemptFlds, exemptFldOut{Field: sname + "." + f, Kind: ex.Kind, Why: ex.Why})
@@ -202,7 +254,7 @@ func (a *analyzer) result() *result {
 	return r
 }
 
-func (a *analyzer) fieldExemption(field, kind string) string {
+func (a *analyzer) fieldExemption(field, kind, fn string) string {
 	i := strings.LastIndex(field, ".")
 	sname, fname := field[:i], field[i+1:]
 	sp, ok := a.cfg.Guarded[sname]
@@ -213,11 +265,21 @@ func (a *analyzer) fieldExemption(field, kind string) string {
 	if !ok {
 		return ""
 	}
+	for _, f := range ex.Funcs {
+		if f == fn {
+			return "in " + fn + ": " + ex.Why
+		}
+	}
 	switch ex.Kind {
 	case "self_synchronized":
 		return "self_synchronized: " + ex.Why
 	case "immutable":
 		if kind == "read" {
+			return "immutable: " + ex.Why
+		}
+	case "immutable_addr_ok":
+		// also the address may be taken (pointer-receiver methods reviewed to be read-only)
+		if kind == "read" || kind == "addr" {
 			return "immutable: " + ex.Why
 		}
 	}
@@ -279,18 +341,46 @@ func emitCoq(r *result) string {
 		fmt.Fprintf(&sb, "  (%d, %s)%s\n", i, coqString(f), sep)
 	}
 	sb.WriteString("].\n\n")
+	cid := map[string]int{}
+	for _, c := range r.Classes {
+		cid[c.Name] = c.ID
+	}
+	sb.WriteString("(* (guarded field, lock class of the mutex of its struct) - configured, or inferred: accessed at least\n   once under that mutex and written outside constructors *)\n")
+	sb.WriteString("Definition guarded_by : list (N * N) := [\n")
+	for i, gb := range r.GuardedBy {
+		sep := ";"
+		if i == len(r.GuardedBy)-1 {
+			sep = ""
+		}
+		fmt.Fprintf(&sb, "  (%d, %d)%s (* %s by %s, %s *)\n", fid[gb.Field], cid[gb.Mutex], sep, coqComment(gb.Field), coqComment(gb.Mutex), gb.How)
+	}
+	sb.WriteString("].\n\n")
+	numList := func(name, comment string, l []string) {
+		fmt.Fprintf(&sb, "(* %s *)\nDefinition %s : list N := [", comment, name)
+		for i, m := range l {
+			if i > 0 {
+				sb.WriteString("; ")
+			}
+			fmt.Fprintf(&sb, "%d", cid[m])
+		}
+		sb.WriteString("].\n\n")
+	}
+	numList("mutex_field_classes", "every lock class that is a sync.Mutex / sync.RWMutex field of a struct of lal or naza", r.MutexFieldClasses)
+	numList("mutex_classes_without_guarded_fields", "of those, the ones for which no sibling field is both accessed under the mutex and written after construction: "+coqComment(strings.Join(r.MutexGuardingNothing, ", ")), r.MutexGuardingNothing)
 	// exempt fields: (field id, writes_exempt_too)
-	sb.WriteString("(* (field, true = every access exempt (self-synchronised) | false = reads only (immutable after construction)) *)\n")
-	sb.WriteString("Definition exempt_fields : list (N * bool) := [\n")
+	sb.WriteString("(* (field, level): 0 = reads exempt (immutable after construction), 1 = reads and address-taking exempt\n   (pointer-receiver getters), 2 = every access exempt (self-synchronised) *)\n")
+	sb.WriteString("Definition exempt_fields : list (N * N) := [\n")
 	var lines []string
 	for _, ex := range r.ExemptFlds {
 		id, ok := fid[ex.Field]
 		if !ok {
 			continue
 		}
-		b := "false"
+		b := "0"
 		if ex.Kind == "self_synchronized" {
-			b = "true"
+			b = "2"
+		} else if ex.Kind == "immutable_addr_ok" {
+			b = "1"
 		}
 		lines = append(lines, fmt.Sprintf("  (%d, %s)", id, b)+"%s (* "+coqComment(ex.Field+": "+ex.Why)+" *)")
 	}
@@ -302,16 +392,22 @@ func emitCoq(r *result) string {
 		sb.WriteString(strings.Replace(l, "%s", sep, 1) + "\n")
 	}
 	sb.WriteString("].\n\n")
-	sb.WriteString("(* (field, is_read) for every access that some thread can perform without holding the guard,\n   outside the exempt (constructor) functions *)\n")
-	sb.WriteString("Definition unguarded_accesses : list (N * bool) := [\n")
+	sb.WriteString("(* (field, kind: 0 read | 1 address taken | 2 write) for every access of a guarded field that some thread can\n   perform without holding a mutex of the field's struct, outside constructors *)\n")
+	sb.WriteString("Definition unguarded_accesses : list (N * N) := [\n")
 	type ua struct {
 		id   int
-		read bool
+		kind int
 		c    string
 	}
+	kindNo := map[string]int{"read": 0, "addr": 1, "write": 2}
 	var uas []ua
+	var byFunc []accessOut
 	for _, x := range append(append([]accessOut(nil), r.Unguarded...), r.Exempted...) {
-		uas = append(uas, ua{fid[x.Field], x.Kind == "read", fmt.Sprintf("%s %s in %s at %s", x.Kind, x.Field, x.Func, x.Pos)})
+		if strings.HasPrefix(x.Exempt, "in ") {
+			byFunc = append(byFunc, x) // exempt at this site only (initialisation before publication): applied here, listed below
+			continue
+		}
+		uas = append(uas, ua{fid[x.Field], kindNo[x.Kind], fmt.Sprintf("%s %s in %s at %s", x.Kind, x.Field, x.Func, x.Pos)})
 	}
 	sort.Slice(uas, func(i, j int) bool {
 		if uas[i].id != uas[j].id {
@@ -324,13 +420,14 @@ func emitCoq(r *result) string {
 		if i == len(uas)-1 {
 			sep = ""
 		}
-		b := "false"
-		if u.read {
-			b = "true"
-		}
-		fmt.Fprintf(&sb, "  (%d, %s)%s (* %s *)\n", u.id, b, sep, coqComment(u.c))
+		fmt.Fprintf(&sb, "  (%d, %d)%s (* %s *)\n", u.id, u.kind, sep, coqComment(u.c))
 	}
 	sb.WriteString("].\n\n")
+	sb.WriteString("(* accesses exempt at their site only (reviewed: initialisation before the reading goroutines exist):\n")
+	for _, x := range byFunc {
+		fmt.Fprintf(&sb, "   %s %s in %s at %s\n", x.Kind, coqComment(x.Field), coqComment(x.Func), x.Pos)
+	}
+	sb.WriteString("*)\n\n")
 	fmt.Fprintf(&sb, "(* lock operations the translator could not attribute to a class (must be empty) *)\nDefinition unresolved_lock_sites : N := %d.\n\n", len(r.Unresolved))
 	fmt.Fprintf(&sb, "(* functions that return holding a lock they acquired, other than the listed known finding(s):\n   the balance hypothesis of the progress theorem *)\nDefinition lock_leak_sites : N := %d.\n", len(r.LockLeaks))
 	for _, k := range r.KnownLockLeaks {
